@@ -42,14 +42,23 @@ def pvals_file(sc):
     return p
 
 
-def dec_cell(length, value, dt=0, m=None):
-    """Decode one frame with the real library; -1 = exception, else nameIx*16 + flags."""
+def dec_cell(length, value, dt=0, m=None, keep=None):
+    """Decode one frame with the real library; -1 = exception, else nameIx*16 + flags.  keep: list that receives
+    (decoded object, input frame object) so that the same cell can be computed again later (obj_cell)."""
     from dali import command, frame
     try:
         f = frame.ForwardFrame(length, value)
         r = command.from_frame(f, devicetype=dt, dev_inst_map=m)
     except Exception:
         return -1
+    if keep is not None:
+        keep.append((r, f))
+    return obj_cell(r, f, length, value)
+
+
+def obj_cell(r, f, length, value):
+    """the cell of an already decoded object: what it says about itself NOW"""
+    from dali import command
     fl = 0
     try:
         iv = value if isinstance(value, int) else int.from_bytes(bytes(value), "big")
